@@ -556,11 +556,6 @@ class Dict(dict, base.Symbolic, pg_typing.CustomTyping):
             self._error_message(
                 f'Key {key!r} is not allowed for {container_cls}.'))
 
-    # Detach old value from object tree.
-    if isinstance(old_value, base.TopologyAware):
-      old_value.sym_setparent(None)
-      old_value.sym_setpath(utils.KeyPath())
-
     if (pg_typing.MISSING_VALUE == value and
         (not field or isinstance(field.key, pg_typing.NonConstKey))):
       if key in self:
@@ -572,8 +567,15 @@ class Dict(dict, base.Symbolic, pg_typing.CustomTyping):
         # without schema.
         return None
     else:
+      # NOTE: the new value is validated first: a rejected write leaves the
+      # old value in place and attached.
       new_value = self._formalized_value(key, field, value)
       super().__setitem__(key, new_value)
+
+    # Detach old value from object tree.
+    if isinstance(old_value, base.TopologyAware) and old_value is not new_value:
+      old_value.sym_setparent(None)
+      old_value.sym_setpath(utils.KeyPath())
 
     # NOTE(daiyip): If current dict is the field dict of a symbolic object,
     # Use parent object as update target.
